@@ -1217,9 +1217,9 @@ class NodeLambda:
             if len(expressions) > 0:
                 lastexpr = expressions[-1]
                 if isinstance(lastexpr, NodeReturn):
-                    expressions[-1] = lastexpr.expression
+                    expressions[-1] = lastexpr.valueNode()
         elif isinstance(body, NodeReturn):
-            body = body.expression
+            body = body.valueNode()
         self.body = body
 
     def evaluate(self, environment):
@@ -1899,6 +1899,13 @@ class NodeReturn:
     def __init__(self, expression, pos):
         self.expression = expression
         self.pos = pos
+
+    def valueNode(self):
+        # the node whose value a trailing return stands for: a bare
+        # "return;" has no expression, its value is NULL
+        if self.expression is None:
+            return NodeNull(self.pos)
+        return self.expression
 
     def evaluate(self, environment):
         return ValueControlReturn(
